@@ -11,6 +11,14 @@
 //!    serde_json (escaped document, `Value`, the raw bytes as a document, the raw bytes between
 //!    quotes); postcard (framed, and the raw bytes as a document); and an rkyv archive of the
 //!    *String* accessed as `ArchivedText` / `ArchivedIdentifier` then deserialized.
+//! 1b. *conversions between the two types, from every storage representation*: every `Text`
+//!    obtained anywhere (all paths above, clones, concatenation results, deserialized values) is
+//!    pushed through `Identifier::try_from(Text)` / `Text::try_into()` (value and clone), every
+//!    `Identifier` obtained anywhere through `Text::from(Identifier)` and back; plus a fixed table
+//!    of *static* literals (`text!`, `Text::new()`, `Text::default()`, `ident!`) covering each
+//!    invalid-identifier class (empty, leading digit, leading underscore, space, hyphen,
+//!    punctuation, non-ASCII, control character; inline and heap lengths) and valid ones, each next
+//!    to the inline/heap Text of the same content, and all pairwise concatenations of the table.
 //! 2. *rkyv corruption* (DESIGN 4.8): valid archives of `Text` and `Identifier` of lengths
 //!    {0,1,7,8,9,22,23,24,64}: every truncation, every extra trailing byte, every position replaced
 //!    by {00,01,7f,80,ff,e^1,e^80}; each accessed as both archived types, then deserialized.
@@ -72,6 +80,72 @@ impl W {
         if !text_inv(v.as_str()) {
             self.fail(format!("{path}: Text with NUL"), input, format!("obtained Text {:?}", v.as_str()), replay);
         }
+        // every Text obtained anywhere is also pushed through the conversions into Identifier
+        let repr = if path.starts_with("static") {
+            "static"
+        } else if v.as_str().len() <= 22 {
+            "inline"
+        } else {
+            "heap"
+        };
+        self.text_into_ident(path, repr, input, v, replay);
+    }
+
+    /// `Identifier::try_from(Text)` / `Text::try_into()` on the value and on its clone; whatever is
+    /// accepted must be an identifier, and must convert back to a Text with the same content.
+    fn text_into_ident(&mut self, path: &str, repr: &str, input: &[u8], v: &Text, replay: &Value) {
+        let results: [(&str, Result<Result<Identifier, String>, String>); 3] = [
+            ("Identifier::try_from(Text)", mcx::catch(|| Identifier::try_from(v.clone()).map_err(|e| e.to_string()))),
+            ("Text::try_into::<Identifier>()", mcx::catch(|| TryInto::<Identifier>::try_into(v.clone()).map_err(|e| e.to_string()))),
+            ("Identifier::try_from(Text::clone().clone())", mcx::catch(|| Identifier::try_from(v.clone().clone()).map_err(|e| e.to_string()))),
+        ];
+        for (how, r) in results {
+            self.rep.count("evaluations", 1);
+            self.rep.count("text_to_ident_conversions", 1);
+            match r {
+                Err(p) => self.fail(format!("Text → Identifier [{repr} Text]: panic"), input, format!("{how} on a Text from {path}: panic: {p}"), replay),
+                Ok(Err(_)) => {
+                    self.rep.count("text_to_ident_rejected", 1);
+                    if repr == "static" {
+                        self.rep.count("static_text_to_ident_rejected", 1);
+                    }
+                }
+                Ok(Ok(i)) => {
+                    self.rep.count("text_to_ident_accepted", 1);
+                    self.rep.count("ident_values_checked", 1);
+                    if !ident_inv(i.as_str()) {
+                        self.fail(
+                            format!("Text → Identifier [{repr} Text]: Identifier not matching [A-Za-z][A-Za-z0-9_]*"),
+                            input,
+                            format!("{how}: Text {:?} (obtained from {path}, {repr} representation) was accepted as Identifier {:?}", v.as_str(), i.as_str()),
+                            replay,
+                        );
+                    }
+                    if i.as_str() != v.as_str() {
+                        self.fail(format!("Text → Identifier [{repr} Text]: content changed"), input, format!("{how}: Text {:?} became Identifier {:?}", v.as_str(), i.as_str()), replay);
+                    }
+                    self.ident_into_text(how, input, &i, replay);
+                }
+            }
+        }
+    }
+
+    /// `Text::from(Identifier)` (and its clone): a Text without NUL holding the same content.
+    fn ident_into_text(&mut self, path: &str, input: &[u8], i: &Identifier, replay: &Value) {
+        self.rep.count("evaluations", 1);
+        self.rep.count("ident_to_text_conversions", 1);
+        match mcx::catch(|| (Text::from(i.clone()), i.clone())) {
+            Err(p) => self.fail("Text::from(Identifier): panic".to_string(), input, format!("from {path}: panic: {p}"), replay),
+            Ok((t, c)) => {
+                self.rep.count("text_values_checked", 1);
+                if !text_inv(t.as_str()) {
+                    self.fail("Text::from(Identifier): Text with NUL".to_string(), input, format!("obtained Text {:?}", t.as_str()), replay);
+                }
+                if t.as_str() != i.as_str() || c.as_str() != i.as_str() || c != *i {
+                    self.fail("Text::from(Identifier) / Identifier::clone: content changed".to_string(), input, format!("{:?} -> {:?} / {:?}", i.as_str(), t.as_str(), c.as_str()), replay);
+                }
+            }
+        }
     }
 
     fn got_ident(&mut self, path: &str, input: &[u8], v: &Identifier, replay: &Value) {
@@ -79,6 +153,16 @@ impl W {
         self.rep.count("ident_values_checked", 1);
         if !ident_inv(v.as_str()) {
             self.fail(format!("{path}: Identifier not matching [A-Za-z][A-Za-z0-9_]*"), input, format!("obtained Identifier {:?}", v.as_str()), replay);
+        }
+        // every Identifier obtained anywhere also goes Identifier → Text → Identifier
+        self.ident_into_text(path, input, v, replay);
+        let t = Text::from(v.clone());
+        self.rep.count("evaluations", 1);
+        if let Ok(Ok(back)) = mcx::catch(|| Identifier::try_from(t)) {
+            self.rep.count("ident_values_checked", 1);
+            if !ident_inv(back.as_str()) {
+                self.fail(format!("{path} → Text → Identifier: Identifier not matching [A-Za-z][A-Za-z0-9_]*"), input, format!("obtained Identifier {:?}", back.as_str()), replay);
+            }
         }
     }
 
@@ -379,6 +463,104 @@ fn static_idents() -> Vec<(&'static str, Identifier)> {
     ]
 }
 
+/// `text!`/`ident!` need literals: a fixed table with every invalid-identifier class (empty,
+/// leading digit, leading underscore, space, hyphen, punctuation, non-ASCII, a control character)
+/// at inline and heap lengths, plus valid ones. (NUL cannot be written: `text!` rejects it at
+/// compile time.)
+fn static_literal_table() -> Vec<(&'static str, Text)> {
+    vec![
+        ("", Text::new()),
+        ("", Text::default()),
+        ("", text!()),
+        ("", text!("")),
+        ("9lives", text!("9lives")),
+        ("7", text!("7")),
+        ("0", text!("0")),
+        ("_x", text!("_x")),
+        ("_", text!("_")),
+        ("has space", text!("has space")),
+        (" ", text!(" ")),
+        (" a", text!(" a")),
+        ("a ", text!("a ")),
+        ("a-b", text!("a-b")),
+        ("-", text!("-")),
+        ("a!", text!("a!")),
+        ("a.b", text!("a.b")),
+        ("é", text!("é")),
+        ("aé", text!("aé")),
+        ("éa", text!("éa")),
+        ("a\u{1}", text!("a\u{1}")),
+        ("a\u{7f}", text!("a\u{7f}")),
+        ("9B3_x9ZaB3_x9ZaB3_x9Za", text!("9B3_x9ZaB3_x9ZaB3_x9Za")),
+        ("9B3_x9ZaB3_x9ZaB3_x9ZaB", text!("9B3_x9ZaB3_x9ZaB3_x9ZaB")),
+        ("aB3_x9ZaB3_x9ZaB3 x9ZaB3", text!("aB3_x9ZaB3_x9ZaB3 x9ZaB3")),
+        ("aB3_x9ZaB3_x9ZaB3_x9ZaB3_x9ZaB3_x9ZaB3_x9ZaB3_x9ZaB3_x9ZaB3_x9Z-", text!("aB3_x9ZaB3_x9ZaB3_x9ZaB3_x9ZaB3_x9ZaB3_x9ZaB3_x9ZaB3_x9ZaB3_x9Z-")),
+        // valid identifiers
+        ("a", text!("a")),
+        ("Z", text!("Z")),
+        ("a_", text!("a_")),
+        ("a0", text!("a0")),
+        ("aB3_x9ZaB3_x9ZaB3_x9Za", text!("aB3_x9ZaB3_x9ZaB3_x9Za")),
+        ("aB3_x9ZaB3_x9ZaB3_x9ZaB", text!("aB3_x9ZaB3_x9ZaB3_x9ZaB")),
+        ("aB3_x9ZaB3_x9ZaB3_x9ZaB3_x9ZaB3_x9ZaB3_x9ZaB3_x9ZaB3_x9ZaB3_x9Za", text!("aB3_x9ZaB3_x9ZaB3_x9ZaB3_x9ZaB3_x9ZaB3_x9ZaB3_x9ZaB3_x9ZaB3_x9Za")),
+    ]
+}
+
+/// Phase 1b: every static literal (and the static Texts behind `ident!` literals) through the
+/// conversions into Identifier, next to inline/heap Texts of the same content; clones and
+/// concatenations of static operands as well.
+fn static_phase(w: &mut W) {
+    let table = static_literal_table();
+    for (content, t) in &table {
+        if t.as_str() != *content {
+            mcx::machinery_error("C32: text! literal content differs from its source");
+        }
+        let input = content.as_bytes();
+        let replay = json!({"kind": "static", "content": content});
+        w.rep.count("inputs", 1);
+        w.rep.count("static_literals", 1);
+        if !ident_inv(content) {
+            w.rep.count("static_literals_not_identifiers", 1);
+        }
+        w.got_text("static literal", input, t, &replay);
+        w.got_text("static literal (clone)", input, &t.clone(), &replay);
+        // the same content in the dynamic representation must get the same treatment
+        if let Ok(d) = Text::from_str(content) {
+            w.got_text("Text::from_str (same content as a static literal)", input, &d, &replay);
+        }
+        let mut k = vec![b's'];
+        k.extend_from_slice(input);
+        w.nontrivial.insert(k);
+        if w.rep.counter("static_literals") % 9 == 5 {
+            w.rep.sample(json!({"kind": "static", "content": content, "is_identifier": ident_inv(content)}));
+        }
+    }
+    for (content, i) in static_idents() {
+        let replay = json!({"kind": "static", "content": content});
+        w.rep.count("inputs", 1);
+        w.got_ident("static ident! literal", content.as_bytes(), &i, &replay);
+        w.got_text("static Text::from(ident! literal)", content.as_bytes(), &Text::from(i), &replay);
+    }
+    // concatenations with static operands (results are inline or heap), both orders
+    for (ca, a) in &table {
+        for (cb, b) in &table {
+            w.rep.count("evaluations", 1);
+            w.rep.count("static_concat_pairs", 1);
+            let want = format!("{ca}{cb}");
+            let replay = json!({"kind": "static", "content": want});
+            match mcx::catch(|| a + b) {
+                Err(p) => w.fail("Text + Text [static operands]: panic".into(), want.as_bytes(), format!("panic: {p}"), &replay),
+                Ok(c) => {
+                    if c.as_str() != want {
+                        w.fail("Text + Text [static operands]: content is not the concatenation".into(), want.as_bytes(), format!("{ca:?} + {cb:?} gave {:?}", c.as_str()), &replay);
+                    }
+                    w.got_text("Text + Text (static operands)", want.as_bytes(), &c, &replay);
+                }
+            }
+        }
+    }
+}
+
 /// Phase 2: single-byte corruptions of valid archives.
 fn rkyv_corruption_phase(w: &mut W) {
     let mut contents: Vec<String> = [0usize, 1, 7, 8, 9, 22, 23, 24, 64].iter().map(|&n| base(n)).collect();
@@ -581,6 +763,7 @@ pub fn run(args: &Args) {
                 w.rep.count("inputs", 1);
                 w.rkyv_access("corrupted archive", &b, &b, &r)
             }
+            Some("static") => static_phase(&mut w),
             Some("concat") | Some("repr") => {
                 let zoo = value_zoo();
                 concat_phase(&mut w, &zoo);
@@ -654,6 +837,7 @@ pub fn run(args: &Args) {
     // Phases 2–4 (small, sequential)
     let mut w = W::new(&rep);
     w.rep.set_max_samples(8);
+    static_phase(&mut w);
     rkyv_corruption_phase(&mut w);
     let zoo = value_zoo();
     concat_phase(&mut w, &zoo);
@@ -669,7 +853,7 @@ pub fn run(args: &Args) {
     rep.set(
         "rule",
         format!(
-            "feed: every byte string of ≤2 bytes over 256 values, 3 bytes over {}, 4 bytes over a 20-value alphabet, and lengths {{0,1,7,8,9,21,22,23,24,64}} with NUL/!/é/0xE9/digit/_/space at every position, each through 21 constructor/decoder paths (FromStr, TryFrom<String|Text|&CStr>, serde_json ×4, postcard ×2, rkyv access+deserialize of a String archive) for Text and Identifier; rkyv: every truncation, appended byte and 7-value single-byte replacement of valid Text/Identifier archives (inline and out-of-line, inline and heap) accessed as both archived types; concatenation of all pairs of a value set; Eq/Ord/Hash of all pairs of values across static/inline/heap/serde/rkyv/concatenated provenances. Non-trivial = distinct feed inputs for which at least one path ran the Text/Identifier validation (valid UTF-8, or a decoder accepted it or rejected it with the crate's own validation error) + distinct corrupted archives that got past rkyv's structural checks (accepted, or rejected by the Text/Identifier verify hook) + distinct concatenation operand pairs + distinct (content, provenance) comparison pairs; counted with sets per disjoint chunk.",
+            "feed: every byte string of ≤2 bytes over 256 values, 3 bytes over {}, 4 bytes over a 20-value alphabet, and lengths {{0,1,7,8,9,21,22,23,24,64}} with NUL/!/é/0xE9/digit/_/space at every position, each through 21 constructor/decoder paths (FromStr, TryFrom<String|Text|&CStr>, serde_json ×4, postcard ×2, rkyv access+deserialize of a String archive) for Text and Identifier; every Text obtained on any path (static literal table of 33 text!/Text::new/Text::default values incl. every invalid-identifier class, inline, heap, clones, concatenations, deserialized) is converted with Identifier::try_from(Text)/try_into and every Identifier with Text::from and back; rkyv: every truncation, appended byte and 7-value single-byte replacement of valid Text/Identifier archives (inline and out-of-line, inline and heap) accessed as both archived types; concatenation of all pairs of a value set; Eq/Ord/Hash of all pairs of values across static/inline/heap/serde/rkyv/concatenated provenances. Non-trivial = distinct feed inputs for which at least one path ran the Text/Identifier validation (valid UTF-8, or a decoder accepted it or rejected it with the crate's own validation error) + distinct corrupted archives that got past rkyv's structural checks (accepted, or rejected by the Text/Identifier verify hook) + distinct concatenation operand pairs + distinct (content, provenance) comparison pairs; counted with sets per disjoint chunk.",
             if full3 { "256 values" } else { "a 20-value alphabet" }
         ),
     );
@@ -686,6 +870,12 @@ pub fn run(args: &Args) {
         "cross_repr_pairs",
         "cross_repr_ident_pairs",
         "same_content_different_repr_pairs",
+        "static_literals",
+        "static_literals_not_identifiers",
+        "static_text_to_ident_rejected",
+        "text_to_ident_accepted",
+        "text_to_ident_rejected",
+        "ident_to_text_conversions",
     ] {
         rep.require_nonzero(c);
     }
